@@ -16,7 +16,7 @@ ANN_SIDE = [("dev_nolockcheck", "C21_LockedMeansNoChange"), ("dev_lockshort", "C
             ("reach_otherpeerlocked", "Reach_OtherPeerLocked"), ("reach_tworeadings", "Reach_TwoReadings")]
 
 
-def side_models(module, side, workers=1, par=3, timeout=300):
+def side_models(module, side, workers=1, par=4, timeout=300):
     """deviation configs must violate the named invariant, reach configs must reach their scenario"""
     def one(x):
         cfg, inv = x
